@@ -1,12 +1,17 @@
 #!/usr/bin/env python3
 """Assemble MANIFEST.json from props/Cxx.json fragments."""
-import glob, json, os
+import glob, json, os, subprocess
 V = os.path.dirname(os.path.dirname(os.path.abspath(__file__)))
 props = [json.loads(l) for l in open(os.path.join(V, "properties.jsonl"))]
+def committed(rel):
+    return subprocess.run(["git", "-C", V, "cat-file", "-e", "HEAD:" + rel], stderr=subprocess.DEVNULL).returncode == 0
 frags = {}
 for f in sorted(glob.glob(os.path.join(V, "props", "C*.json"))):
     j = json.load(open(f))
-    frags[j["property_id"]] = j
+    pid = j["property_id"]
+    # claim only what is committed (builders commit a property when its check passes)
+    if all(committed(r) for r in ("props/%s.json" % pid, "coq/Properties/%s.v" % pid, "evidence/%s.json" % pid)):
+        frags[pid] = j
 checks, na = [], []
 for p in props:
     pid = p["id"]
